@@ -3,7 +3,7 @@ import re
 
 from l4sa import q, panics
 from l4sa.core import AnchorMissing, ShapeUnrecognised, SwitchInfo, strip, deep_strip, walk, show, calls_in, cmp_nf
-from rules import common
+from rules import common, c10
 
 CLAIMED = True
 TECHNIQUE = "static analysis over type-checked MIR: panic/abort-site inventory over the call-graph cone of PatternEncoder::new/encode/deserialize (overflow/bounds asserts, may-panic external contracts, fallible Display into write_fmt), discharged by dominating-guard must-facts or a construct-keyed allow-list; dominance of strftime validation over every Time chunk construction; checked width accumulation; error-marker template"
@@ -158,6 +158,8 @@ def run_cfg(ctx, p, cfg):
 
     with ctx.rule("P1", "panic inventory", cfg) as r:
         cone = cone_of(p)
+        if common.established(c10.rule_char_counting, p):
+            satisfied.add("C10.A1")
         st = panics.check_cone(r, p, cone, "C11", satisfied=satisfied)
         ctx.extra.setdefault("panic_inventory", {})[cfg] = dict(st, cone=len(cone))
         r.floor("cone-size", len(cone), 40)
